@@ -1229,6 +1229,12 @@ def run(tier, replay):
             exhaustive = False
         else:
             cases, exhaustive = select_cases(grid, tier, rng, bkg, dbd, ga)
+            # long runs: thousands of records (whatever the program buffers or does every so many events shows only there)
+            co_ = dict(DEFAULTS, cat="background", nuc="bkgP", seed="7", count=3)
+            dbd_ = dict(DEFAULTS, cat="dbd", nuc="Mo100", level=0, mode=1, seed="7", count=3, act="pos", mdl="all")
+            for big_i, (cl_, n_) in enumerate([(co_, 2500), (co_, 4100), (dbd_, 3000)] + ([(co_, 20011), (dbd_, 12000)] if thorough else [])):
+                if sig(cl_) in plans_by_sig:
+                    cases.append({"id": "big%d" % big_i, "cl": cl_, "plan": plans_by_sig[sig(cl_)], "conc": {"nucname": "Co60" if cl_ is co_ else None, "n": n_, "variant": 0}})
         jobs = {}
         for c in cases:
             if c["plan"]["verdict"] in ("run", "unspecified"):
